@@ -563,6 +563,52 @@ theorem acc_run_from (ops : List Op) : ∀ (a : Arena), Inv a → Acc a.ctx → 
 
 /-! ### The ρ-bound along a history -/
 
+/-- One cycle over a history, the facts behind the ρ-bound and the heap bound: from a sleeping
+    state `a0` with positive debt, over operations `more` that keep the cycle (`Op.keepsCycle`) and
+    append no `'Z'`, followed by a `cycle_debt` call that returns with the cycle unfinished:
+    `allocated` grew by exactly the number of accepted `alloc` operations; the allocations the
+    cycle has had to deal with are those held in `a0` plus those; the arena held something in
+    `a0`; and the ρ-bound holds when the arena is not empty at the end. -/
+theorem cycle_from_sleep {a0 : Arena} (h0 : Inv a0) (hacc0 : Acc a0.ctx)
+    (hs : a0.ctx.phase = .sleep) (hd : 0 < a0.ctx.metrics.allocationDebt)
+    (more : List Op) (hk : ∀ op, op ∈ more → op.keepsCycle = true)
+    (hal : (a0.run more).alive = true) (hcb : (a0.run more).cb = none)
+    (new : List Char) (hsteps : (a0.run more).ctx.steps = new ++ a0.ctx.steps) (hz : 'Z' ∉ new)
+    {ρ : Rat} (hp : RhoPacing a0.ctx.metrics.pacing ρ) {fault : TraceFault} {c' : Ctx}
+    (hr : (a0.run more).ctx.doCollection (a0.run more).root .payDebt .finishCycle fault = (c', .returned))
+    (hns : c'.phase ≠ .sleep) :
+    (a0.run more).ctx.metrics.allocated = a0.ctx.metrics.allocated + allocsIn a0 more ∧
+    c'.metrics.totalGcs + c'.metrics.freed = a0.ctx.metrics.totalGcs + allocsIn a0 more ∧
+    a0.ctx.metrics.totalGcs ≠ 0 ∧
+    (c'.metrics.totalGcs ≠ 0 →
+      ((allocsIn a0 more : Nat) : Rat) * (1 - ρ) < ρ * (a0.ctx.metrics.totalGcs : Rat)) := by
+
+  obtain ⟨new', e', f'⟩ := run_cycRel more a0 h0 hk hal
+  have hnew : new' = new := List.append_cancel_right (e'.symm.trans hsteps)
+  obtain ⟨sc, hallo⟩ := f' (hnew ▸ hz)
+  have hi2 := inv_run_from more h0 hal
+  have hc2 : CInv (a0.run more).ctx (a0.run more).root [] := by
+    have := hi2.cinv; rw [hi2.cbTemps hcb] at this; exact this
+  have hacc2 := acc_run_from more a0 h0 hacc0 hal
+  have hfr0 : a0.ctx.metrics.freed = 0 := (hacc0.1 hs).2.2.2.2
+  have hhd : a0.ctx.metrics.hasDebt = true := by simpa [Metrics.hasDebt] using hd
+  have hdeb := hasDebt_debits hhd
+  have hH : a0.ctx.metrics.totalGcs + allocsIn a0 more
+      = (a0.run more).ctx.metrics.totalGcs + (a0.run more).ctx.metrics.freed := by
+    have := sc.ghost; omega
+  obtain ⟨fr, _⟩ := doCollection_cycle_frame hc2 hr hns
+  refine ⟨hallo, by rw [fr.sum]; exact hH.symm, ?_, fun hne => ?_⟩
+  · intro h0'
+    have : a0.ctx.metrics.hasDebt = false := by
+      simp [Metrics.hasDebt, Metrics.allocationDebt, h0']
+    rw [this] at hhd; cases hhd
+  refine rho_bound_ctx (Aw := a0.ctx.metrics.allocated) hc2 hacc2 (by rw [sc.pacing]; exact hp)
+    hallo.symm hH ?_ hr hns hne
+  · rw [sc.wakeup]
+    unfold Metrics.cycleDebits at hdeb
+    have := sc.art
+    grind
+
 /-- **ρ-bound over a history.**  `a0`: a sleeping state with positive debt (the next debt-driven
     call wakes the collector).  `more`: any further operations — mutator operations, collection
     calls of every kind (self-driven or replayed, `finalize` / `start_sweeping` included) — that
@@ -579,26 +625,9 @@ theorem rho_bound_from_sleep {a0 : Arena} (h0 : Inv a0) (hacc0 : Acc a0.ctx)
     (hr : (a0.run more).ctx.doCollection (a0.run more).root .payDebt .finishCycle fault = (c', .returned))
     (hns : c'.phase ≠ .sleep) (hne : c'.metrics.totalGcs ≠ 0) :
     (a0.run more).ctx.metrics.allocated = a0.ctx.metrics.allocated + allocsIn a0 more ∧
-    ((allocsIn a0 more : Nat) : Rat) * (1 - ρ) < ρ * (a0.ctx.metrics.totalGcs : Rat) := by
-  obtain ⟨new', e', f'⟩ := run_cycRel more a0 h0 hk hal
-  have hnew : new' = new := List.append_cancel_right (e'.symm.trans hsteps)
-  obtain ⟨sc, hallo⟩ := f' (hnew ▸ hz)
-  have hi2 := inv_run_from more h0 hal
-  have hc2 : CInv (a0.run more).ctx (a0.run more).root [] := by
-    have := hi2.cinv; rw [hi2.cbTemps hcb] at this; exact this
-  have hacc2 := acc_run_from more a0 h0 hacc0 hal
-  have hfr0 : a0.ctx.metrics.freed = 0 := (hacc0.1 hs).2.2.2.2
-  have hhd : a0.ctx.metrics.hasDebt = true := by simpa [Metrics.hasDebt] using hd
-  have hdeb := hasDebt_debits hhd
-  refine ⟨hallo, ?_⟩
-  refine rho_bound_ctx (Aw := a0.ctx.metrics.allocated) hc2 hacc2 (by rw [sc.pacing]; exact hp)
-    hallo.symm ?_ ?_ hr hns hne
-  · have := sc.ghost; omega
-  · rw [sc.wakeup]
-    unfold Metrics.cycleDebits at hdeb
-    have := sc.art
-    grind
-
+    ((allocsIn a0 more : Nat) : Rat) * (1 - ρ) < ρ * (a0.ctx.metrics.totalGcs : Rat) :=
+  have hc := cycle_from_sleep h0 hacc0 hs hd more hk hal hcb new hsteps hz hp hr hns
+  ⟨hc.1, hc.2.2.2 hne⟩
 /-- A debt-driven call made asleep with positive debt wakes the collector: the steps it appends
     start with `'W'`. -/
 theorem doCollection_wakes {c : Ctx} {root : List Slot} {stop : Stop} {fault : TraceFault}
